@@ -158,7 +158,9 @@ def run(ctx):
                                          ("multiboot2", "FramebufferTypeId", S.FRAMEBUFFER_TYPES, "framebuffer types")):
         e = L.adt(F, crate, tyname)
         got = {v["discr"]: v["name"] for v in (e or {}).get("variants", [])}
-        ctx.check(got == table, "EN", tyname, "%s discriminants are the specified encodings of %s" % (tyname, what), (e or {}).get("span", ""), how=str(got), why="have %s, specified %s" % (got, table))
+        # (a failing table is keyed by the table that is there, so that a recorded finding names *these* wrong values and any other
+        # wrong table of the same enum is a new violation)
+        ctx.check(got == table, "EN", tyname if got == table else "%s[%s]" % (tyname, ",".join("%s=%s" % kv for kv in sorted(got.items()))), "%s discriminants are the specified encodings of %s" % (tyname, what), (e or {}).get("span", ""), how=str(got), why="have %s, specified %s" % (got, table))
     # ---- MemoryArea::new and FramebufferType::serialize
     ma = L.adt(F, "multiboot2", "MemoryArea")
     mn = F.find(impl_self_path=ma["path"], name="new", impl_trait=None) if ma else []
